@@ -150,10 +150,16 @@ def run(ck, F, tier):
                     ra = single_atom(r) if isinstance(r, Poly) else None
                     excl = False
                     if ra and atom_fn(ra) == "ite":
+                        from ..symx import canon_cond
                         c, tv, fv = atom_args(ra)
+                        c, pol = canon_cond(c if isinstance(c, Poly) else c[1], True)
+                        if not pol:
+                            tv, fv = fv, tv
+                        # canonical reading: if j == argmin { None } else { Some(m) }
                         ca = single_atom(c)
-                        excl = ca is not None and atom_fn(ca) == "ne" and var("j") in atom_args(ca) and tv == ("ctor", "Some", (("P", var("m")),)) and fv == ("variant", "None") \
-                            and any("argmin" in repr(x) or "proj0" in repr(x) for x in atom_args(ca))
+                        unp = lambda k: k[1] if isinstance(k, tuple) and len(k) == 2 and k[0] == "P" else k
+                        excl = ca is not None and atom_fn(ca) == "eq" and var("j") in atom_args(ca) and unp(fv) in (("ctor", "Some", (("P", var("m")),)), ("ctor", "Some", [var("m")])) \
+                            and unp(tv) == ("variant", "None") and any("argmin" in repr(x) or "proj0" in repr(x) for x in atom_args(ca))
                     rest_ok = rest_ok and excl
                 ok = min_ok and rest_ok
                 why = "one send to the argmin element (dest = msgmin.source: %s) and one per element with j != argmin (%s)" % (min_ok, rest_ok)
